@@ -55,7 +55,9 @@ var entryBundles = map[string]func([]byte, callSink){
 	"schema": bundleSchema, "enum": bundleEnum, "regex": bundleRegex, "jsondoc": bundleJSONDoc, "number": bundleNumber,
 }
 
-func init() { entryBundles["nesting"] = bundleNesting }
+func init() { entryBundles["nesting"] = bundleNesting; entryBundles["plaintext"] = bundlePlaintext }
+
+var plaintextTokens = toks("a", " ", "\n", "\r", `"`, "\xff", "é", "{")
 
 // bundleNesting: the input is a descriptor "<shape>:<depth>:<entry>" of a text that nests
 // one container in another depth times (kept as a descriptor so that witnesses and replay
@@ -216,6 +218,7 @@ func (r *spaceRunner) run(b spaceBounds) {
 	r.seqSpace("regex", c18Tokens, b.regexN)
 	r.seqSpace("jsondoc", jsonDocTokens, b.jsonN)
 	r.seqSpace("number", numberTokens, b.numberN)
+	r.seqSpace("plaintext", plaintextTokens, 4)
 	// (b) every reachable scanner state x every byte class x end of input
 	r.stateSpace("schemascanner", "schema", schemaSymbols, b.schemaD, func(p []byte) (string, int, bool) { return scanner.VerifKeyAfter(p, false) })
 	r.stateSpace("schemascanner-len", "schema", schemaSymbols, b.schemaD, func(p []byte) (string, int, bool) { return scanner.VerifKeyAfter(p, true) })
@@ -666,7 +669,7 @@ func init() {
 		ID:        "C02",
 		Technique: "bounded exhaustive token strings + explicit-state search over the three real scanners and the number recogniser (every state x byte class x end of input) + every truncation of the test corpus + exhaustive small reference graphs, each through the full call bundle in crash-contained worker processes",
 		Rule: "per entry point (schema, enum rule, regex, JSON document, number): all strings of <= N tokens; all reachable abstract scanner states x byte classes (both scanner modes); every prefix of every string literal of the repository's tests; all projects of <=3 self/mutually referencing types from 10 reference forms x every registered subset; exponent grid; a nesting ladder (arrays / objects / both, depth 1..4000, thorough 100000, as schema and as JSON document); 21 formatter-significant fragments in each of 38 places whose diagnostics quote user text. " +
-			"Bundle: Len, Check, Example, GetAST, UsedUserTypes, AddType/AddRule, NextLexeme loop, NewNumber, GuessSchemaType, OpenAPI of accepted schemas. non-trivial = distinct inputs executed",
+			"Plain-text documents: all strings of <= 4 tokens. Bundle: Len, Check, Example, GetAST, UsedUserTypes, AddType/AddRule, NextLexeme loop, NewNumber, GuessSchemaType, OpenAPI of accepted schemas. non-trivial = distinct inputs executed",
 		Bounds: func(tier string) map[string]any {
 			b := c02Bounds(tier)
 			return map[string]any{"schema_tokens": b.schemaN, "enum_tokens": b.enumN, "regex_bytes": b.regexN, "json_tokens": b.jsonN, "number_bytes": b.numberN,
@@ -739,6 +742,8 @@ func (r *spaceRunner) violationFamily() {
 				r.projectCase("violations", &project{Root: root, Types: types})
 				// the same project with every type body filed under one name
 				r.projectCase("violations", &project{Root: root, Types: types, TypeFile: "types.jst"})
+				// ... and with no file names at all
+				r.projectCase("violations", &project{Root: root, Types: types, TypeFile: unnamedFiles})
 				w.S.Nontrivial++
 			}
 		}
